@@ -51,7 +51,7 @@ class AbstractGate:
         """
         return self._parameters
 
-    def call(self, *args, **kwargs):
+    def call(*args, **kwargs):
         """
         Create a :class:`GateStatement` that calls this gate.
         The arguments to this method will be the arguments the gate is called with.
@@ -68,6 +68,9 @@ class AbstractGate:
         :raises JaqalError: If the parameter names don't match the parameters this gate
             takes.
         """
+        # The receiver is taken from the positional arguments so that a
+        # parameter may be called anything, e.g. `self`.
+        self, *args = args
         params = OrderedDict()
         if args and not kwargs:
             if len(args) > len(self.parameters):
@@ -101,7 +104,8 @@ class AbstractGate:
             param.validate(params[param.name])
         return GateStatement(self, params)
 
-    def __call__(self, *args, **kwargs):
+    def __call__(*args, **kwargs):
+        self, *args = args
         return self.call(*args, **kwargs)
 
     def copy(self, *, name=None, parameters=None, ideal_unitary=None):
